@@ -7,6 +7,7 @@ from vsc.model.field_scalar_model import FieldScalarModel
 from vsc.model.field_composite_model import FieldCompositeModel
 from vsc.model.expr_fieldref_model import ExprFieldRefModel
 from vsc.model.expr_bin_model import ExprBinModel
+from vsc.model.expr_cond_model import ExprCondModel
 from vsc.model.bin_expr_type import BinExprType
 from vsc.model.expr_literal_model import ExprLiteralModel
 from vsc.model.enum_field_model import EnumFieldModel
@@ -89,6 +90,11 @@ class FieldArrayModel(FieldCompositeModel):
             self.size.set_used_rand(True)
         else:
             self._set_size(len(self.field_l))
+        # Reduction expressions are specific to a randomization call
+        self.sum_expr = None
+        self.sum_expr_btor = None
+        self.product_expr = None
+        self.product_expr_btor = None
         FieldCompositeModel.pre_randomize(self, visited)
         
     def post_randomize(self, visited):
@@ -132,6 +138,29 @@ class FieldArrayModel(FieldCompositeModel):
         super().set_used_rand(is_rand, level, in_set)
         self.size.set_used_rand(is_rand, level+1, in_set)
         
+    def _n_reduce_elems(self):
+        """Number of elements a reduction (sum, product) ranges over"""
+        if self.is_rand_sz and self.size.is_used_rand:
+            # The size is being solved for. All candidate elements
+            # participate, each qualified by the size
+            return len(self.field_l)
+        else:
+            return int(self.size.get_val())
+        
+    def _reduce_elem(self, i, dflt):
+        """Element 'i' as an operand of a reduction"""
+        ret = ExprFieldRefModel(self.field_l[i])
+        if self.is_rand_sz and self.size.is_used_rand:
+            # Only elements below the size are part of the list
+            ret = ExprCondModel(
+                ExprBinModel(
+                    ExprLiteralModel(i, False, 32),
+                    BinExprType.Lt,
+                    ExprFieldRefModel(self.size)),
+                ret,
+                ExprLiteralModel(dflt, self.is_signed, self.type_t.width))
+        return ret
+        
     def get_sum_expr(self):
         if self.sum_expr is None:
             # Build
@@ -139,22 +168,16 @@ class FieldArrayModel(FieldCompositeModel):
             # Compute clog2 of overflow term to 
             # ensure that we properly size the result
             # to avoid overflow            
-            result_bits = self.type_t.width
-            overflow_val = int(self.size.get_val())-1
-            
-            while overflow_val > 0:
-                result_bits += 1
-                overflow_val >>= 1
+            result_bits = self.get_sum_width()
                 
             # Force the result to be 32-bit, in order to 
             # match user expectation
             ret = ExprLiteralModel(0, self.is_signed, result_bits)
-            for i in range(int(self.size.get_val())):
-                f = self.field_l[i]
+            for i in range(self._n_reduce_elems()):
                 ret = ExprBinModel(
                     ret,
                     BinExprType.Add,
-                    ExprFieldRefModel(f))
+                    self._reduce_elem(i, 0))
                 
             self.sum_expr = ret
             
@@ -162,7 +185,7 @@ class FieldArrayModel(FieldCompositeModel):
     
     def get_sum_width(self):
         result_bits = self.type_t.width
-        overflow_val = int(self.size.get_val())-1
+        overflow_val = self._n_reduce_elems()-1
             
         while overflow_val > 0:
             result_bits += 1
@@ -183,16 +206,15 @@ class FieldArrayModel(FieldCompositeModel):
             
             # Force the result to be 32-bit, in order to 
             # match user expectation
-            if int(self.size.get_val()) == 0:
+            if self._n_reduce_elems() == 0:
                 ret = ExprLiteralModel(0, self.is_signed, 64)
             else:
                 ret = ExprLiteralModel(1, self.is_signed, 64)
-            for i in range(int(self.size.get_val())):
-                f = self.field_l[i]
+            for i in range(self._n_reduce_elems()):
                 ret = ExprBinModel(
                     ret,
                     BinExprType.Mul,
-                    ExprFieldRefModel(f))
+                    self._reduce_elem(i, 1))
                 
             self.product_expr = ret
             
